@@ -178,8 +178,8 @@ Proof.
 Qed.
 
 Definition Mref : list mdesc :=
-  [ {| m_status := 0; m_vs := [1;2;3;4]; m_ts := [(0,1,2);(0,2,3)]%nat; m_source := 99; m_sflag := true |};
-    {| m_status := 0; m_vs := [5;6;7]; m_ts := [(0,1,2)]%nat; m_source := 0; m_sflag := false |} ].
+  [ {| m_status := 0; m_vs := [1;2;3;4]; m_ts := [(0,1,2);(0,2,3)]%nat; m_source := 99; m_sflag := true; m_source2 := 0; m_sflag2 := false |};
+    {| m_status := 0; m_vs := [5;6;7]; m_ts := [(0,1,2)]%nat; m_source := 0; m_sflag := false; m_source2 := 0; m_sflag2 := false |} ].
 (* Mesh::triangle(t) is offset by the vertices of the previously loaded file (pinned and repaired) *)
 Lemma mesh_reload_refuted_lemma :
   m_last m_repaired Mref [MLoad 0%nat] (MLoad 1%nat) <> m_last m_repaired Mref [] (MLoad 1%nat)
@@ -191,6 +191,15 @@ Lemma mesh_source_flag_pinned_refuted_lemma :
   nth 5 (m_last m_pinned Mref [MLoad 0%nat; MSurfSource] (MLoad 0%nat)) 0 = 1 /\ nth 5 (m_last m_pinned Mref [] (MLoad 0%nat)) 0 = 0
   /\ m_last m_repaired Mref [MLoad 0%nat; MSurfSource] (MLoad 0%nat) = m_last m_repaired Mref [] (MLoad 0%nat).
 Proof. vm_compute. repeat split; reflexivity. Qed.
+(* an assembly that must throw (mesh intersecting the second head) still throws after a successful assembly on the same mesh:
+   its outcome is the descriptor's, whatever the flags *)
+Lemma surfsource_outcome_independent_of_flags_lemma : forall c W s s',
+  y_desc s = y_desc s' -> hd 0 (snd (m_step c W MSurfSource2 s)) = hd 0 (snd (m_step c W MSurfSource2 s')).
+Proof.
+  intros c W s s' H. cbn [m_step]. rewrite <- H. destruct (y_desc s) as [i|]; [|reflexivity].
+  destruct (negb (m_sflag2 (nth i W dummy_mdesc))); reflexivity.
+Qed.
+
 (* SurfSourceMat twice on the same mesh: same result (the flags are set before they are read) *)
 Lemma surfsource_twice_lemma : forall c W s,
   hd 0 (snd (m_step c W MSurfSource (fst (m_step c W MSurfSource s)))) = hd 0 (snd (m_step c W MSurfSource s)).
